@@ -21,3 +21,13 @@ Print Assumptions C06_extent_is_the_consumed_tokens.
 Theorem C06_extent_of_every_sub_parse : forall f m ts e rest, input_ok ts -> P f m ts = Ok (e, rest) -> Spec m ts rest e.
 Proof. exact span. Qed.
 Print Assumptions C06_extent_of_every_sub_parse.
+
+(* ---- types: every position field of an accepted type IS the position of the token the documentation names (Parse/TypeProofs.v):
+   the accepted token list is a sentence of the grammar Tr, and Tr assigns SimpleType.NamePos / ArrayType.Array / StructType.Struct the
+   start of the first token, Gt the byte of the closing bracket (the second byte of a fused ">>" where applicable, the second byte of
+   "<>" for an empty struct), identifiers the extent of their token ---- *)
+From Verif Require Import Parse.TypeModel Parse.TypeProofs.
+Theorem C06_type_positions_are_token_positions : forall ts t r, last_eof ts -> parse_type ts = Ok (t, r) ->
+  Tr t (unfuse ts) (unfuse r) /\ kis (cur r) K_eof = true.
+Proof. exact parse_type_sound. Qed.
+Print Assumptions C06_type_positions_are_token_positions.
